@@ -85,6 +85,45 @@ def gen_store_program(rng, profile):
     return lines
 
 
+def gen_faulty_program(rng):
+    """Write failures of the log underneath (disk full, I/O error) during store operations, then the restart such an
+    error forces (a storage error is fatal to the Raft instance).  Run on the implementation only: the oracle is the
+    acknowledged state; the Lean model has no write failures."""
+    lines = ["open"]
+    nxt, term = 1, 1
+    faults = 0
+    for _ in range(rng.randint(2, 8)):
+        r = rng.random()
+        inject = rng.random() < 0.45
+        if r < 0.6:
+            k = rng.randint(1, 5)
+            ents = []
+            for _ in range(k):
+                ents.append("%d:%d:%d" % (nxt, term, rng.choice([0, 1, 7, 64, 300])))
+                nxt += 1
+            if inject:
+                lines.append("fault %d" % rng.randint(0, k - 1))
+            lines.append("append " + " ".join(ents))
+        elif r < 0.75:
+            term += 1
+            if inject:
+                lines.append("fault 0")
+            lines.append("vote %d:%d:%d" % (term, rng.randint(1, 3), rng.randint(0, 1)))
+        elif r < 0.9:
+            if inject:
+                lines.append("fault 0")
+            lines.append("committed %d:%d" % (rng.randint(0, nxt), term))
+        else:
+            if inject:
+                lines.append("fault peer 0")
+            lines.append("peer %d %d" % (rng.randint(1, 4), rng.choice([5001, 5002, 6001])))
+        if inject:
+            faults += 1
+            break          # the failed operation is the last of this process
+    lines += [rng.choice(["kill", "restart"]), "open", "state"]
+    return lines
+
+
 def gen_wrapper_program(rng):
     """The bare wrapper, used the way the store uses it: `read_all` only straight after opening an instance (the
     vendored engine copy loses entries appended after a non-empty read of the writer's own block when the log is
@@ -182,11 +221,13 @@ class AckOracle:
         self.purged = None
         self.peers = {}
         self.open = False
+        self.armed = False        # an injected write failure is pending
+        self.maybe = []           # acceptable reports after a failed operation (its records up to the failing one may be in the log)
 
-    def fmt(self):
+    def fmt(self, extra=None):
         def sid(x):
             return "-" if x is None else "%d:%d" % x
-        ents = sorted(self.log.items())
+        ents = sorted({**self.log, **(extra or {})}.items())
         last = (ents[-1][0], ents[-1][1][0]) if ents else self.purged
         return "purged=%s last=%s vote=%s committed=%s log=[%s] peers=[%s]" % (
             sid(self.purged), sid(last), "-" if self.vote is None else "%d:%d:%d" % self.vote, sid(self.committed),
@@ -205,9 +246,24 @@ class AckOracle:
         if not self.open:
             return None
         acked = out.startswith("ok")
+        if t[0] == "fault":
+            self.armed = True
+            return None
         if t[0] == "state":
             exp = self.fmt()
+            if out in self.maybe:
+                return None
             return None if out == exp else "reopened/open store reports\n    %s\n  acknowledged state is\n    %s" % (out, exp)
+        if not acked and self.armed:
+            # the injected failure: nothing acknowledged; the records written before the failing one may be found later
+            self.armed = False
+            if t[0] == "append":
+                extra = {}
+                for e in t[1:]:
+                    i, tm, n = (int(x) for x in e.split(":"))
+                    extra[i] = (tm, n)
+                    self.maybe.append(self.fmt(extra))
+            return None
         if not acked:
             if out == "panic" and t[0] == "purge":
                 return None      # the store refused: nothing acknowledged
@@ -304,7 +360,10 @@ def check_c21(ctx):
                 programs.append((prof, gen_store_program(rng, prof)))
         for _ in range(counts["wrapper"]):
             programs.append(("wrapper", gen_wrapper_program(rng)))
-        model = run_model(ctx.scratch, [p for _, p in programs])
+        for _ in range(300 if thorough else 50):
+            programs.append(("faulty", gen_faulty_program(rng)))
+        nomodel = {i for i, (prof, _) in enumerate(programs) if prof == "faulty"}
+        model = run_model(ctx.scratch, [p if prof != "faulty" else [] for prof, p in programs])
         if model is None:
             ctx.tie_broken.append("wdriver could not be run on the log-store programs")
         # implementations, in parallel
@@ -340,7 +399,7 @@ def check_c21(ctx):
             seen.add(key)
             if len(samples) < 4 and prof in ("single", "multi") and idx % 37 == 5:
                 samples.append({"profile": prof, "program": lines[:14], "outputs": outs[:14]})
-            mouts, quirks = model[idx] if model else (None, [])
+            mouts, quirks = model[idx] if (model and idx not in nomodel) else (None, [])
             if quirks:
                 hist["quirk_fired"] += 1
             dis = None
@@ -389,7 +448,8 @@ def check_c21(ctx):
             "rule": "one case = one program run on the real WalLogStore/peer records/WriteAheadLog (fresh directory, one child process per segment) AND on the "
                     "Lean model (LogStore.step), outputs compared line by line; oracle = independently tracked acknowledged state compared with every `state` "
                     "report. profiles: single (at most one reopen after data, plus reopens of an empty store), huge (the same with 3-6 MB entries: several engine blocks and read batches), multi (2-5 reopens, clean and killed), kill "
-                    "(killed processes only), wrapper (bare WriteAheadLog append/read_all/reopen). non-trivial = distinct program with at least one reopen",
+                    "(killed processes only), wrapper (bare WriteAheadLog append/read_all/reopen), faulty (a record write of the log underneath fails inside an append / vote / committed / peer "
+                    "operation, the process is restarted: implementation against the acknowledged-state oracle only, no model comparison). non-trivial = distinct program with at least one reopen",
             "programs": len(programs),
             "histogram": hist,
             "operations": ophist,
